@@ -1,6 +1,8 @@
 import Firebolt.Properties.C01
 import Firebolt.Properties.ExecFlow
 import Firebolt.Properties.ExecNet
+import Firebolt.Generated.Closure
+import Firebolt.Expected.Closure
 /-!
 # C04 — Backpressure never loses events; discard drops are counted and never block
 The ledger invariants under every interleaving are proved on the node component model (`Properties/ExecLedger.lean`).
@@ -72,5 +74,9 @@ theorem tree_discarding_child_never_blocks (cfg : Path → Cfg) (caps : Path →
   | some s1 =>
     simp [gstep, allowed, step, hw, hpc, ht]
 
+
+/-! ### influence closure: the pinned functions, and every function of the repository that writes a struct field or package
+variable they read, are unchanged (digests regenerated from /repo on every run; a difference names the functions) -/
+theorem closure_unchanged : GeneratedClo.C04 = ExpectedClo.C04 := by rfl
 
 end Firebolt.C04
